@@ -85,9 +85,11 @@ let () =
       let (fs, rest) = parse_filters (int_of_string nf) rest in
       let src = source_of (parse_nodes n rest) (lister = "1") in
       let node = { d_id = nat_of_int (int_of_string start); d_at = []; d_ann = None } in
-      let fpf = if lister = "c" then find_preds_custom src src.s_preds fs
+      (* find_preds_g / find_preds_custom_g: the filters with the keep closures and fetch guards
+         re-read from the source (= find_preds / find_preds_custom, proved) *)
+      let fpf = if lister = "c" then find_preds_custom_g src src.s_preds fs
                 (* the served table is what the caller's own FindPredecessors returns *)
-                else find_preds src fs in
+                else find_preds_g src fs in
       (* find_roots_run: the loop with the depth arithmetic re-read from findRoots (= find_roots_log, proved) *)
       (match find_roots_run (fuel_for src (nat_of_int n)) fpf (z_of_int (int_of_string limit)) node with
        | None -> Printf.printf "%s FUEL\n" id
@@ -114,8 +116,8 @@ let () =
       let n = int_of_string n in
       let (fs, rest) = parse_filters (int_of_string nf) rest in
       let src = source_of (parse_nodes n rest) (lister = "1") in
-      let ps = if lister = "c" then find_preds_custom src src.s_preds fs (nat_of_int (int_of_string x))
-               else find_preds src fs (nat_of_int (int_of_string x)) in
+      let ps = if lister = "c" then find_preds_custom_g src src.s_preds fs (nat_of_int (int_of_string x))
+               else find_preds_g src fs (nat_of_int (int_of_string x)) in
       Printf.printf "%s P%s\n" id
         (String.concat "" (List.map (fun d ->
            Printf.sprintf " %d:%s:%s" (int_of_nat d.d_id) (hex_of_str d.d_at) (show_ann d.d_ann)) ps))
